@@ -74,6 +74,10 @@ def run(ctx):
             return seqs[np.array(sel[1], dtype=int)], [rows[i] for i in sel[1]]
         if sel[0] == "slice":
             return seqs[sel[1]:], rows[sel[1]:]
+        if sel[0] == "reverse":
+            return seqs[::-1], rows[::-1]
+        if sel[0] == "step":
+            return seqs[::2], rows[::2]
         if sel[0] == "mask":
             m = np.array(sel[1], dtype=bool)
             return seqs[m], [x for x, k in zip(rows, sel[1]) if k]
@@ -87,9 +91,13 @@ def run(ctx):
         if k < 0.4:
             sel = ("fancy", [rng.randrange(n) for _ in range(rng.randint(1, n + 1))])
             kept = [rows[i] for i in sel[1]]
-        elif k < 0.7:
+        elif k < 0.55:
             a = rng.randint(1, n - 1)
             sel, kept = ("slice", a), rows[a:]
+        elif k < 0.65:
+            sel, kept = ("reverse",), rows[::-1]
+        elif k < 0.7:
+            sel, kept = ("step",), rows[::2]
         else:
             mk = [rng.random() < 0.6 for _ in rows]
             sel, kept = ("mask", mk), [x for x, q in zip(rows, mk) if q]
@@ -238,7 +246,7 @@ def run(ctx):
             al = "ACGT"
             rows2 = gen_rows(rng, al, w2)
             mat = [[rng.choice([0.0, 0.1, 0.25, 0.5, 1.0]) for _ in range(w2)] for _ in al]
-            ctx.run_case(case_motif, {"fn": "get_motif_scores", "enc": rng.choice(["ascii", "ACGTEncoding"]), "rows": rows2, "matrix": mat, "alphabet": al})
+            ctx.run_case(case_motif, {"fn": "get_motif_scores", "enc": rng.choice(["ascii", "ACGTEncoding"]), "rows": rows2, "matrix": mat, "alphabet": al, "select": gen_select(rows2, w2)})
         else:
             kmers = ["".join(rng.choice(alphabet) for _ in range(w)) for _ in range(rng.randint(1, 4))]
             ctx.run_case(case_kmer_encoding, {"fn": "KmerEncoding", "enc": ename, "k": w, "kmers": kmers})
